@@ -131,7 +131,14 @@ class NDInterp(Interp):
         old_divide = m['divide']
         m['divide'] = Builtin('np.divide', lambda a, k: s.np_divide(a, k, old_divide))
         old_asarray = m['asarray']
-        m['asarray'] = Builtin('np.asarray', lambda a, k: a[0] if (isinstance(a[0], NDArr) and k.get('dtype') is None) else old_asarray.f(a, k))
+        def asarray_(a, k):
+            # [A] np.asarray returns its argument ITSELF (no copy) when it already is an array of the requested kind
+            dt = k.get('dtype', a[1] if len(a) > 1 else None)
+            dn = {'float64': 'float', 'bool_': 'bool', 'int64': 'int'}.get(dt.name, dt.name) if isinstance(dt, TypeTag) else dt
+            if isinstance(a[0], NDArr) and (dt is None or dn == a[0].dtype):
+                return a[0]
+            return old_asarray.f(a, k)
+        m['asarray'] = Builtin('np.asarray', asarray_)
         m['isnan'] = Builtin('np.isnan', lambda a, k: s.map1(lambda x: False, a[0]))
         m['ndim'] = Builtin('np.ndim', lambda a, k: len(s.np_shape(a[0])))
         s.globals['np'] = s.np
@@ -960,8 +967,23 @@ class NDInterp(Interp):
             return plain.f(a, k)
         x, y = s.asarr(a[0]), s.asarr(a[1])
         where, out = k.get('where', True), k.get('out')
-        if out is None or not isinstance(out, NDArr) or not out.is_whole():
-            raise Unsupported('np.divide(where=) needs a whole-array out=')
+        if out is None or not isinstance(out, NDArr):
+            raise Unsupported('np.divide(where=) needs an array out=')
+        if not out.is_whole():
+            # out= is a view: the quotient (the previous contents of the view where not selected) is stored THROUGH the view
+            if out.dtype in ('int', 'bool'):
+                raise PyRaise('TypeError', note="Cannot cast ufunc 'divide' output to an integer array")
+            prev = s.map1(lambda v: v, out, dtype=out.dtype)          # contents before the write
+
+            def f2(p, q_, w, o):
+                if isinstance(w, bool):
+                    return s.cell_div(p, q_) if w else o
+                d = s.fresh('gdiv', 'float', True)
+                s.assume(z3.Implies(B(w), d.t * R(q_) == R(p)))
+                return s.ite(w, d, o)
+            res2 = s.mapn(f2, [x, y, where, prev], dtype=out.dtype)
+            s.nd_store(out, res2)
+            return out
         if out.dtype in ('int', 'bool'):
             # [A] numpy: true division yields a floating result, which cannot be cast into an integer / Boolean out= array
             # under the default same_kind rule (numpy.core._exceptions._UFuncOutputCastingError, a TypeError)
